@@ -337,6 +337,7 @@ func (e *Enc) encode() {
 	e.curBlock = nil
 	if e.pass != 1 {
 		e.finishPosts()
+		e.missingAsserts()
 	}
 	// back-edge obligations are generated when the tail block finishes (in finishBlock via terminator)
 }
